@@ -39,7 +39,7 @@ TRUSTED = ['hand-written matchers for HEADER_VERSION_RE / SECTION_DELIM_RE (sour
            'gen/kernels_p8file.py: the statement sequence of P8Formatter.to_file, the dispatch of from_file and its '
            'fill-up loop for short sections as data']
 CLAIM = dict(
-    text=("Theorems C03_roundtrip, C03_rewrite_identical, C03_ended_flag, C03_short_sections_padded, C03_roundtrip_lexer, C03_roundtrip_lexer_full, C03_roundtrip_lexer_dialect (Coq, closed under the global context) about a model "
+    text=("Theorems C03_roundtrip, C03_rewrite_identical, C03_ended_flag, C03_short_sections_padded, C03_short_holds, C03_fill_defaults_are_the_formats, C03_roundtrip_lexer, C03_roundtrip_lexer_full, C03_roundtrip_lexer_dialect (Coq, closed under the global context) about a model "
           "of P8Formatter.to_file / _get_raw_data_from_p8_file / from_file whose writer statement sequence, section dispatch, "
           "the loop that fills short data sections up (with the default contents taken from the running code) "
           "and header strings are regenerated from p8.py on every run: for every cart (any bytes in the five regions, any label "
@@ -49,7 +49,9 @@ CLAIM = dict(
           "identical file. C03_short_sections_padded: for a cart whose data regions stop early at a row boundary (the .p8 files "
           "newer PICO-8 versions save leave out the empty tail of a section) the file spelling out just those rows reads back "
           "with every region at full length - the rows present followed by the empty default (zeros; 41 42 43 44 per music "
-          "pattern) - about the code AFTER the fix: commit that fills short sections up in from_file. "
+          "pattern) - about the code AFTER the fix: commit that fills short sections up in from_file; C03_short_holds: that "
+          "reading is the cart the file denotes by the reference semantics (holds_C03_short holds of the model's reader); "
+          "C03_fill_defaults_are_the_formats: the defaults dumped from the running code are those of the format description. "
           "Built on the C15 (P8SCII/UTF-8) and C16 (per-section codecs) theorems. PARTIAL in one respect: the "
           "Lua object is abstract in the theorems - that the sanity re-lex succeeds, that the echo writer's last chunk is not "
           "empty, and echo_stable (the re-read object echoes the text it was lexed from) are explicit hypotheses owed by the "
